@@ -18,7 +18,14 @@ import (
 )
 
 const verifDir = "/verif"
-const repoDir = "/repo"
+var repoDir = envOr("GOSYM_REPO", "/repo")
+
+func envOr(k, d string) string {
+	if v := os.Getenv(k); v != "" {
+		return v
+	}
+	return d
+}
 
 // ---- sidecar configuration (/verif/harness/<ID>.json)
 
@@ -28,6 +35,7 @@ type HarnessSpec struct {
 	Schedule bool             `json:"schedule"`
 	Race     bool             `json:"race"`
 	NoReplay bool             `json:"no_replay"`
+	HangIsViolation bool      `json:"hang_is_violation"`
 	Stubs    map[string]string `json:"stubs"`
 	MaxPaths map[string]int   `json:"max_paths"`
 	Note     string           `json:"note"`
@@ -58,6 +66,7 @@ type RunConfig struct {
 	Deadline       time.Time
 	Known          []KnownFinding
 	ProfileForks   bool
+	HangIsViolation bool
 	Harness        string
 }
 
@@ -393,6 +402,7 @@ func runCheck(id, tier string, workers int, only string, noReplay, verbose bool)
 			cfg.Params[k] = v
 		}
 		cfg.ProfileForks = verbose
+		cfg.HangIsViolation = hs.HangIsViolation
 		cfg.ScheduleMode = hs.Schedule
 		cfg.RaceMonitor = hs.Race
 		for _, k := range known.Findings {
